@@ -60,6 +60,51 @@ def shadow_prog(rng):
                          "out = append(out, -0.0, 0.0, string(-0.0), 1.5 - 1.5)\n"])
     return pre + body + post + consts + "return out\n"
 
+def lit_source(v):
+    """source text of a literal-pool value, or None (NaN, infinities, MinInt64 and unprintable chars have no literal)"""
+    import struct, math
+    k = v[0]
+    if k == "i":
+        z = int(v[1])
+        if z == -2**63: return None
+        return "(%d)" % z if z < 0 else str(z)
+    if k == "u": return v[1] + "u"
+    if k == "f":
+        x = struct.unpack(">d", bytes.fromhex(v[1]))[0]
+        if math.isnan(x) or math.isinf(x): return None
+        t = repr(abs(x))
+        if "e" in t and "." not in t: pass
+        return "(-%s)" % t if (x < 0 or math.copysign(1, x) < 0) else t
+    if k == "c":
+        z = int(v[1])
+        return "'%s'" % chr(z) if 32 <= z < 127 and chr(z) not in "'\\" else None
+    if k == "b": return "true" if v[1] == "1" else "false"
+    if k == "n": return "undefined"
+    if k == "s":
+        b = vlib.unhex(v[1]) if isinstance(vlib.unhex(v[1]), bytes) else vlib.unhex(v[1]).encode("latin1")
+        try: t = b.decode("ascii")
+        except UnicodeDecodeError: return None
+        return '"%s"' % t
+    return None
+
+def literal_condition_progs(lits):
+    """every literal as the condition of if / else, ?:, !, && and || and of a loop, and as a folded
+    constant expression in the same places: the shapes in which the optimizer decides truthiness"""
+    out = []
+    for v in lits:
+        t = lit_source(v)
+        if t is None: continue
+        forms = [t]
+        if v[0] in ("i", "f", "u"): forms += ["(%s - %s)" % (t, t), "(%s * 1)" % t] if v[0] != "u" else ["(%s * 1u)" % t]
+        if v[0] == "s": forms.append('(%s + "")' % t)
+        for e in forms:
+            out.append('if %s { return "t" }\nreturn "e"\n' % e)
+            out.append('if %s { return "t" } else { return "e" }\n' % e)
+            out.append('return %s ? "t" : "e"\n' % e)
+            out.append('return [!%s, %s && "x", %s || "x"]\n' % (e, e, e))
+            out.append('x := 0\nfor %s { x++; if x > 2 { break } }\nreturn x\n' % e)
+    return out
+
 def run(rep, br, proofs, rng, tier):
     # ---- level 1: folding tables, exhaustive over literal pool^2 x operators
     lits = [v for v in c15.pool() if v[0] in ("i", "u", "f", "s", "b", "c", "n")]
@@ -101,6 +146,7 @@ def run(rep, br, proofs, rng, tier):
     progs += ["f := func(x) { return \"F\" + x }\nfor _, int in [f] { return int(\"7\") }\n",
               "try { throw \"e\" } catch string { return typeName(string) }\n",
               "a := 0.0\nb := -0.0\nreturn string(b)\n"]
+    progs += literal_condition_progs(lits)
     pcases = [mk_case("p%d" % i, "optprog", hexs(s.encode()), ["limits"] + [str(x) for x in LIMITS], *[hexs(m.encode()) for m in MODS]) for i, s in enumerate(progs)]
     impl_p, _ = vlib.run_impl([c["line"] for c in pcases], timeout=3000)
     compared = refused = 0
@@ -133,7 +179,7 @@ def run(rep, br, proofs, rng, tier):
     folded = sum(1 for c in cases if c["impl"] and c["impl"].startswith("(fold"))
     rep.coverage.update({
         "evaluations": len(cases) + len(pcases) * (len(LIMITS) + 1), "distinct_nontrivial": folded + compared,
-        "rule": "folding tables called through the hook over literal pool x literal pool (same-kind pairs exhaustively, mixed pairs sampled) x 15 binary operators, 4 unary operators and isLiteralFalsy, each folded result re-computed by the VM operator; programs crossing every binding form that can shadow a builtin (:=, var, const, param, global, function parameter, variadic parameter, for-in key / value, catch identifier, nested function scope, destructuring, block) with builtin calls on constant operands, constant expressions and literal conditions, compiled with the optimizer off and with OptimizerLimit in %s and run with equal arguments; non-trivial = a fold happened / outcomes compared" % LIMITS,
+        "rule": "folding tables called through the hook over literal pool x literal pool (same-kind pairs exhaustively, mixed pairs sampled) x 15 binary operators, 4 unary operators and isLiteralFalsy, each folded result re-computed by the VM operator; programs crossing every binding form that can shadow a builtin (:=, var, const, param, global, function parameter, variadic parameter, for-in key / value, catch identifier, nested function scope, destructuring, block) with builtin calls on constant operands, constant expressions and literal conditions, every literal of the pool (and constant expressions folding to it) as the condition of if / else, ?:, !, && / ||, and for, compiled with the optimizer off and with OptimizerLimit in %s and run with equal arguments; non-trivial = a fold happened / outcomes compared" % LIMITS,
         "samples": [cases[0]["line"], progs[0], progs[1]],
         "table_cases": len(cases), "table_folds": folded, "programs": len(pcases), "program_budget_runs_compared": compared,
         "optimizer_refusals": refused, "disagreements": len(dis), "oracle_failures": len(fails)})
